@@ -44,8 +44,9 @@ func (t *SiteTable) fill() {
 			t.Hot[i] = true
 		}
 	}
-	if len(t.Hot) > 2 {
+	if len(t.Hot) > 4 {
 		t.Hot[1], t.Hot[2] = true, true // pool Put/Get
+		t.Hot[3], t.Hot[4] = true, true // simulated mutex: just acquired / just released
 	}
 }
 
@@ -59,6 +60,10 @@ func (t *SiteTable) name(id uint32) string {
 		return "simrt.Pool.Put"
 	case 2:
 		return "simrt.Pool.Get"
+	case 3:
+		return "simrt.Mutex.Lock(acquired)"
+	case 4:
+		return "simrt.Mutex.Unlock"
 	}
 	return fmt.Sprintf("site%d", id)
 }
